@@ -20,12 +20,14 @@ UNITS = {"d": 86400000.0, "h": 3600000.0, "m": 60000.0, "s": 1000.0, "ms": 1.0}
 # data-model entry points that evaluate expressions / locations / content
 EVAL_API = ["execute", "execute_condition", "execute_for_each", "executeContent", "evaluate_content", "evaluate_params",
             "get_by_location", "get_expression_alternative_value", "assign"]
-FORBIDDEN_CAPTURE = ("&", "dyn datamodel::Datamodel", "executable_content::", "fsm::Fsm", "datamodel::SourceCode")
+# `datamodel::Data*` covers Data (possibly an unevaluated Source) and DataArc (a shared cell that can change until the timer fires)
+FORBIDDEN_CAPTURE = ("&", "dyn datamodel::Datamodel", "executable_content::", "fsm::Fsm", "fsm::CommonContent", "datamodel::Data", "datamodel::SourceCode")
 
 
-def root_local(e):
-    """The local at the bottom of a receiver chain like `datamodel.global().lock().unwrap().delayed_send`."""
-    for _ in range(12):
+def root_local(e, fn=None):
+    """The local at the bottom of a receiver chain like `datamodel.global().lock().unwrap().delayed_send`
+    (through single-assignment lets such as `let mut gd = datamodel.global().lock().unwrap();` when fn is given)."""
+    for _ in range(16):
         e = peel(e, NO_T)
         k = e.get("k")
         if k == "field":
@@ -33,7 +35,10 @@ def root_local(e):
         elif k == "mcall":
             e = e["r"]
         elif k == "path" and e["r"].get("k") == "local":
-            return e["r"]["b"]
+            d = hirq.single_def(fn, e["r"]["b"]) if fn is not None else None
+            if d is None:
+                return e["r"]["b"]
+            e = d
         else:
             return None
     return None
@@ -126,8 +131,9 @@ def run(ctx):
 
     # ------------------------------------------------------------------------------------------ R16.2
     ctx.rule("R16.2", "must-consume: in no function is a place whose type contains timer::Guard dropped on a non-unwinding path, except the "
-                      "Option<Guard> returned by delayed_send.remove (an explicit cancel; R16.3 says who may) and by delayed_send.insert (R16.3); "
-                      "i.e. the Guard returned by schedule always ends in delayed_send or Guard::ignore")
+                      "Option<Guard> returned by delayed_send.remove (an explicit cancel; R16.3 says who may) and by delayed_send.insert (R16.3), "
+                      "and a Guard is passed by value only to HashMap::insert or Guard::ignore; i.e. the Guard returned by schedule always "
+                      "ends in delayed_send or is detached")
 
     def r2():
         holders = 0
@@ -149,6 +155,12 @@ def run(ctx):
                     ok_drops.append(src.split("::")[-1])
                 else:
                     bad.append("%s:%d drops %s" % (t["s"][6], t["s"][3], t["ty"]))
+            for bi, t in fn.mir_calls():
+                if fn.blocks[bi].get("cleanup"):
+                    continue
+                byval = [ty for ty in t.get("argtys", []) if GUARD_TY in ty and not ty.startswith("&")]
+                if byval and not (path_matches(t["f"], "HashMap::insert") or path_matches(t["f"], "timer::Guard::ignore")):
+                    bad.append("%s:%d hands a %s to %s" % (t["s"][6], t["s"][3], byval[0], t["f"]))
             ctx.ob("R16.2", site_key(fn, "no timer guard dropped on a normal path"), not bad, fn.where,
                    "%s; results of %s are covered by R16.3" % (bad or "no stray drop of a Guard-typed place", sorted(set(ok_drops)) or "-"))
         ctx.floor("R16.2", "functions holding a Guard-typed local", holders, 4)
@@ -210,11 +222,9 @@ def run(ctx):
         # cancel
         ca = F.fn(CANCEL)
         for fn, n, par in sites.get((CANCEL, False, "remove"), []):
-            key = par["a"][0]
-            b = local_of(key)
-            info = ca.bindings().get(b) if b is not None else None
+            info = hirq.origin(ca, par["a"][0])
             okk = False
-            if info and info["from"] in ("iflet", "match"):
+            if info.get("from") in ("iflet", "match"):
                 src = peel(info.get("init") if info["from"] == "iflet" else info.get("scrutinee"), NO_T)
                 if src.get("k") == "mcall" and src["m"] == "get_expression_alternative_value" and local_of(src["r"], NO_T) == ca.params[1]["b"]:
                     a0 = peel(src["a"][0], NO_T)
@@ -222,7 +232,7 @@ def run(ctx):
                         a0 = a0["a"][0]
                     f0, f1 = hirq.field_of(a0), hirq.field_of(src["a"][1])
                     okk = bool(f0) and bool(f1) and f0[1] == "send_id" and f1[1] == "send_id_expr"
-            okr = root_local(par["r"]) == ca.params[1]["b"] and global_field_expr(par["r"], "delayed_send")
+            okr = root_local(par["r"], ca) == ca.params[1]["b"] and global_field_expr(par["r"], "delayed_send")
             ctx.ob("R16.3", site_key(ca, "cancel removes the evaluated sendid from the executing session's table"), okk and okr, line_of(par),
                    "key is the value of sendid/sendidexpr: %s; table is get_global!(datamodel).delayed_send: %s" % (okk, okr))
         # closure remove
@@ -243,7 +253,7 @@ def run(ctx):
             gsrc = some_of(ex, par["a"][1])
             d = hirq.single_def(ex, gsrc) if gsrc is not None else None
             okv = d is not None and is_call(peel(d, NO_T), "fsm::Fsm::schedule")
-            okr = root_local(par["r"]) == dmb and global_field_expr(par["r"], "delayed_send")
+            okr = root_local(par["r"], ex) == dmb and global_field_expr(par["r"], "delayed_send")
             ctx.ob("R16.3", site_key(ex, "insert(sendid of the event, guard returned by schedule) into the own table"), okk and okv and okr, line_of(par),
                    "key is the id the event carries: %s; value is the schedule guard: %s; table is datamodel.global()'s: %s" % (okk, okv, okr))
             # D23: replacing a live guard drops (= cancels) it
@@ -326,9 +336,9 @@ def run(ctx):
         sw = fs.calls("timer::Timer::schedule_with_delay")
         ctx.exact("R16.4", "schedule_with_delay sites in Fsm::schedule", len(sw), 1)
         for c in sw:
-            ga = hirq.guard_atoms(fs, c)
-            okg = [(describe(a), pol) for a, pol in ga if pol is not None] == [("(delay_ms Gt 0)", True)] or \
-                (len(ga) == 1 and ga[0][1] is True and ga[0][0].get("k") == "bin" and ga[0][0]["op"] == "Gt" and param_index(fs, ga[0][0]["l"]) == 1 and const_eval(ga[0][0]["r"]) == 0)
+            pb = fs.params[1]["b"]
+            okg = PE(F, fs, {pb: 1}).reach(c) is True and PE(F, fs, {pb: 250}).reach(c) is True and \
+                PE(F, fs, {pb: 0}).reach(c) is False and PE(F, fs, {pb: -5}).reach(c) is False
             dur = peel(c["a"][0], NO_T)
             okd = dur.get("k") == "call" and (dur.get("p") or "").endswith("::milliseconds") and param_index(fs, dur["a"][0]) == 1
             okc = param_index(fs, c["a"][1]) == 2
